@@ -17,9 +17,10 @@ META = {
                    "times and no weights (labels/predictions symbolic and shared between the copies); (b) weights w vs c*w for a symbolic c>0; (c) all-ones "
                    "weights vs no weights. Labels/predictions are symbolic 0/1 integers (reals for mean_prediction), weights symbolic positive reals in (b). "
                    "Multiplicities k_i change the row count and are structural.",
-    "tier_bounds": {"quick": "n<=3 rows, multiplicities in {1,2,3} with sum<=6, 1..2 groups (incl. single-row groups), functions: 4 rates, selection_rate, "
+    "tier_bounds": {"quick": "(MetricFrame with fully symbolic weights: n<=2) n<=3 rows, multiplicities in {1,2,3} with sum<=6, 1..2 groups (incl. single-row groups), functions: 4 rates, selection_rate, "
                              "mean_prediction, MetricFrame by_group/overall of selection_rate and true_positive_rate, demographic_parity_difference/ratio, "
-                             "equalized_odds_difference, equal_opportunity_ratio",
+                             "equalized_odds_difference, equal_opportunity_ratio, derived-metric objects selection_rate_difference, true_positive_rate_ratio and a "
+                             "make_derived_metric(selection_rate, group_min) object shared by all calls of a path (weighted call first, unweighted afterwards)",
                     "thorough": "n<=4, sum<=9, 3 groups"},
     "trusted_base": ["z3", "symx", "confusion_matrix / unique stubs (validated)"],
     "stubs": ["_base_metrics.skm.confusion_matrix", "_base_metrics.np.unique", "nanops._ensure_numeric"],
@@ -63,6 +64,8 @@ def jobs(tier, seed):
                     for mode in ("mult", "scale-w", "scale-c"):
                         if mode != "mult" and ks != tuple([1] * n):
                             continue
+                        if tier == "quick" and mode == "scale-w" and fam == "frame" and n == 3:
+                            continue  # symbolic weights x 3 symbolic rows inside MetricFrame: path feasibility alone takes 10-15 min (thorough tier only)
                         js.append({"id": f"{fam}-{mode}-k{''.join(map(str, ks))}-g{''.join(map(str, g))}", "family": fam, "mode": mode, "ks": list(ks), "groups": list(g),
                                    "cw": [[1, 2, 3, 5][(i + len(js)) % 4] for i in range(n)]})
     return js
@@ -96,7 +99,20 @@ def _calls(fam, fm, groups_labels):
                 ("MetricFrame(true_positive_rate).by_group", frame(fm.true_positive_rate, "by_group"))]
     mk = lambda fn, **kw: (lambda yt, yp, w, sf: fn(yt, yp, sensitive_features=sf, **kw, **({} if w is None else {"sample_weight": ser(w)})))
     return [("demographic_parity_difference", mk(fm.demographic_parity_difference)), ("demographic_parity_ratio", mk(fm.demographic_parity_ratio, method="to_overall")),
-            ("equalized_odds_difference", mk(fm.equalized_odds_difference)), ("equal_opportunity_ratio", mk(fm.equal_opportunity_ratio))]
+            ("equalized_odds_difference", mk(fm.equalized_odds_difference)), ("equal_opportunity_ratio", mk(fm.equal_opportunity_ratio)),
+            # derived-metric OBJECTS (the generated module-level ones and a user-made one) are called several times per path - weighted, then unweighted:
+            # a call must not remember the sample parameters of an earlier call
+            ("selection_rate_difference", mk(fm.selection_rate_difference)), ("true_positive_rate_ratio", mk(fm.true_positive_rate_ratio)),
+            ("make_derived_metric(selection_rate, group_min)", mk(_user_derived(fm)))]
+
+
+_DERIVED = {}
+
+
+def _user_derived(fm):
+    if "gm" not in _DERIVED:
+        _DERIVED["gm"] = fm.make_derived_metric(metric=fm.selection_rate, transform="group_min")
+    return _DERIVED["gm"]
 
 
 def _same_res(a, b):
